@@ -1720,16 +1720,12 @@ dt_dtdiff(dt_dtdurtyp_t tgttyp, struct dt_dt_s d1, struct dt_dt_s d2)
 				int nltr = leaps_corr[i_d2] - leaps_corr[i_d1];
 
 				res.corr = nltr;
-# if BYTE_ORDER == BIG_ENDIAN
 			} else {
 				/* always repack res.corr to remove clutter
-				 * from the earlier res.sexydur ass'ment */
+				 * from the earlier res.sexydur ass'ment,
+				 * on little-endians that is the sign extension
+				 * of a negative value */
 				res.corr = 0;
-# elif BYTE_ORDER == LITTLE_ENDIAN
-
-# else
-#  warning unknown byte order
-# endif	 /* BYTE_ORDER */
 			}
 		}
 #endif	/* WITH_LEAP_SECONDS */
